@@ -16,17 +16,19 @@ Theorem C10_exact : forall axis_dims reg ad axes l e,
   admissible reg ad axes e = true.
 Proof. exact get_metric_exact. Qed.
 
-(* Only when nothing is registered for exactly that set is the metric a product: its
-   factors are variables registered for the blocks of one of the enumerated
-   combinations, block by block, all taken at the array's position (then they broadcast
-   against it together) or all interpolated to it. *)
+(* Only when nothing is registered for exactly that set is the metric a product, with one
+   factor per block of one of the enumerated combinations: for each block, the variable
+   registered at the array's position if there is one, taken as it is, and otherwise --
+   only then -- one of the registered ones flagged as interpolated to it. *)
 Theorem C10_product : forall axis_dims reg ad axes e,
   find_key axes reg = None ->
   get_metric axis_dims reg ad axes = Ok e ->
-  exists c ls p flag, In c (axis_combinations axes) /\
-    Forall2 (fun b l => find_key b reg = Some l) c ls /\ Forall2 (fun v l => In v l) p ls /\
-    e = map (fun v : varinfo => {| f_name := fst v; f_interp := flag |}) p /\
-    (flag = false -> subsetS (flat_map snd p) ad = true).
+  exists c ls, In c (axis_combinations axes) /\
+    Forall2 (fun b l => find_key b reg = Some l) c ls /\
+    Forall2 (fun f l =>
+               (f_interp f = false /\ exists v, In v l /\ fst v = f_name f /\ fits ad v = true) \/
+               (f_interp f = true /\ (forall v, In v l -> fits ad v = false) /\
+                exists v, In v l /\ fst v = f_name f)) e ls.
 Proof. exact get_metric_product. Qed.
 
 (* On grids of up to three axes every enumerated combination (after the whole set) is a
